@@ -48,6 +48,8 @@ struct Step {
     level: Vec<u8>,
     #[serde(default)]
     fields: Vec<Vec<String>>,
+    #[serde(default)]
+    cs: Vec<usize>,
 }
 
 #[derive(Deserialize, serde::Serialize, Clone)]
@@ -739,6 +741,37 @@ async fn run_scenario(sc: &Scenario, sink: &Sink) {
                         if wait_hook(&mut hrx, |e| matches!(e, Event::Untrack { id: i, .. } if *i == id), 3000).await.is_none() {
                             sink.emit(json!({"e":"nountrack","c":st.c}));
                         }
+                    }
+                }
+            }
+            "close_many" => {
+                // many peers go away in the same instant
+                let mut ids = Vec::new();
+                let mut gone = Vec::new();
+                for c in &st.cs {
+                    if let Some(p) = peers.remove(c) {
+                        sink.emit(json!({"e":"close","c":c}));
+                        if let Some(id) = p.id {
+                            ids.push((*c, id));
+                        }
+                        gone.push(p);
+                    }
+                }
+                drop(gone);
+                let deadline = tokio::time::Instant::now() + Duration::from_millis(3000);
+                let mut pending: std::collections::HashSet<u128> = ids.iter().map(|x| x.1).collect();
+                while !pending.is_empty() {
+                    match tokio::time::timeout_at(deadline, hrx.recv()).await {
+                        Ok(Some(Event::Untrack { id, .. })) => {
+                            pending.remove(&id);
+                        }
+                        Ok(Some(_)) => {}
+                        _ => break,
+                    }
+                }
+                for (c, id) in ids {
+                    if pending.contains(&id) {
+                        sink.emit(json!({"e":"nountrack","c":c}));
                     }
                 }
             }
